@@ -97,6 +97,7 @@ impl ConnectionAcceptor {
     { unimplemented!() }
 
 //@@ fn file=fe2o3-amqp/src/acceptor/connection.rs impl=`impl<Tls, Sasl> ConnectionAcceptor<Tls, Sasl> where Sasl: SaslAcceptor,` name=negotiate_sasl_with_framed
+//@@ shape loops=loop
 //@@ attr #[verifier::exec_allows_no_decreases_clause]
 //@@ generics
 //@@ nowhere
